@@ -80,3 +80,10 @@ package iqr
 //@     assert [a-value-is-written-for-every-known-column-of-every-record] value != nil
 //@     assert [a-record-without-the-column-gets-a-back-fill-value-of-its-own] implies(err != nil, fresh(value))
 //@ end
+
+// removes the listed rows: frame as Discard (ASSUMED; the row count after the
+// removal is not stated)
+//@ func (*IQR).DiscardRows
+//@   assumed
+//@   modifies ghost(iqr, "iqrN"), iqr.rrcs, iqr.isDirty
+//@ end
